@@ -101,6 +101,20 @@ def execute(ctx, case):
         C(False, "construction raised although every score lies in [0,1]", "fraud-raise-iff", exc=repr(e))
         return True
     ref = Scores(g, f, nb_easy_pos=ep, nb_easy_neg=en, score_class="pos" if scl == "genuine" else "neg", equal_class="pos")
+    if case["_seed"] % 3 == 0:
+        # a history on one object: it held other scores (other class sizes), answered every kind of query about them, and then had its
+        # score arrays replaced through the genuines/frauds setters (sorted, as the class keeps them) - it must now be the view of (g, f)
+        hr = np.random.default_rng(case["_seed"] + 5)
+        fs = FraudScores(genuines=hr.uniform(0, 1, int(hr.integers(1, 9))), frauds=hr.uniform(0, 1, int(hr.integers(1, 9))), nb_easy_genuines=ep, nb_easy_frauds=en, score_class=scl)
+        q = np.array([0.0, 0.3, 0.8, 1.0])
+        for m_ in [METRICS[i] for i in hr.permutation(len(METRICS))][: int(hr.integers(1, len(METRICS) + 1))]:
+            getattr(fs, "threshold_at_" + m_)(q)
+            getattr(fs, m_)(q)
+        fs.cm(q), fs.eer(), fs.auc(), fs.nb_all_pos, fs.hard_neg_ratio
+        if hr.random() < 0.5:
+            fs.genuines, fs.frauds = ref.pos.copy(), ref.neg.copy()
+        else:
+            fs.frauds, fs.genuines = ref.neg.copy(), ref.pos.copy()
     C(np.array_equal(fs.genuines, ref.pos) and np.array_equal(fs.frauds, ref.neg) and fs.genuines is fs.pos and fs.frauds is fs.neg, "genuines/frauds do not alias pos/neg", "fraud-alias")
     C(fs == ref and fs.score_class == ref.score_class and fs.equal_class == BinaryLabel.pos and (fs.nb_easy_pos, fs.nb_easy_neg) == (ep, en), "FraudScores state differs from the equivalent Scores", "fraud-state")
     allv = np.concatenate([np.asarray(g, float), np.asarray(f, float)])
